@@ -22,7 +22,7 @@ from ..qlib import lib, q_from_float, q_to_float, omul, oherm, ofro, osvals, oad
 MCFG = """CONSTANTS MaxN = %d
  LMax = 3
 SPECIFICATION Spec
-INVARIANTS Truthful ConvSound HistMono AtMostN ZeroRhsZero PrecIndependent BreakdownEnds IterBound
+INVARIANTS Truthful ConvSound HistMono AtMostN ZeroRhsZero PrecIndependent BreakdownEnds IterBound ShortCycleIsBreakdown KdimBound
 CHECK_DEADLOCK FALSE
 """
 TCFG = """CONSTANTS SlackTruth = 16
@@ -155,10 +155,23 @@ def systems(nmax, seed, thorough):
 
 
 def _solve(A, b, tol, cap, prec, dense):
+    """solve and record, by wrapping the module-level Givens QR, the dimension of each cycle's Hessenberg system"""
     S = lib().solver
     s = S.QGMRESSolver(tol=tol, max_iter=cap, verbose=False, preconditioner=prec)
     Aq = q_from_float(A) if dense else _sp(A)
-    x, info = s.solve(Aq, q_from_float(b))
+    kd = []
+    orig = S.Hess_QR_ggivens
+
+    def wrap(Hess):
+        kd.append(int(Hess.shape[1]))
+        return orig(Hess)
+    S.Hess_QR_ggivens = wrap
+    try:
+        x, info = s.solve(Aq, q_from_float(b))
+    finally:
+        S.Hess_QR_ggivens = orig
+    info = dict(info)
+    info["_kdims"] = kd
     return q_to_float(np.asarray(x)).reshape(A.shape[0], 1, 4), info
 
 
@@ -198,8 +211,10 @@ def _run_system(args):
                         ev.append({"tid": tid, "ev": "Return", "iters": 0, "converged": False, "finite": False,
                                    "info_lg": 100000, "true_lg": 100000, "xzero": False, "exc": repr(e)})
                         continue
-                    for h in info.get("residual_history", []):
-                        ev.append({"tid": tid, "ev": "Cycle", "m": int(h[0]), "res_lg": lg(float(h[2]))})
+                    kds = info.get("_kdims", [])
+                    for ci, h in enumerate(info.get("residual_history", [])):
+                        ev.append({"tid": tid, "ev": "Cycle", "m": int(h[0]), "res_lg": lg(float(h[2])),
+                                   "kdim": kds[ci] if ci < len(kds) else int(h[0])})
                     finite = bool(np.all(np.isfinite(x)) and math.isfinite(float(info["residual"])))
                     tr = ofro(omul(A, x) - b) / ofro(b) if finite else float("nan")
                     ev.append({"tid": tid, "ev": "Return", "iters": int(info["iterations"]),
@@ -261,7 +276,7 @@ def _run_system(args):
             with np.errstate(all="ignore"), contextlib.redirect_stdout(io.StringIO()):
                 x, info = _solve(A, np.zeros_like(b), 1e-8, None, prec, True)
             for h in info.get("residual_history", []):
-                ev.append({"tid": tid, "ev": "Cycle", "m": int(h[0]), "res_lg": lg(float(h[2]))})
+                ev.append({"tid": tid, "ev": "Cycle", "m": int(h[0]), "res_lg": lg(float(h[2])), "kdim": int(h[0])})
             finite = bool(np.all(np.isfinite(x)))
             ev.append({"tid": tid, "ev": "Return", "iters": int(info["iterations"]),
                        "converged": bool(info["converged"]), "finite": finite, "info_lg": lg(float(info["residual"])) if finite else 100000,
@@ -283,7 +298,7 @@ def run(ctx, replay=None):
     ]
     res = ctx.model("QGMRES", MCFG % nmax, dump=False, coverage=True)
     cov = res.get("coverage", {})
-    ctx.notes["M_action_coverage"] = {k: v["distinct"] for k, v in cov.items() if k in ("ZeroRhs", "Precondition", "Cycle", "Test")}
+    ctx.notes["M_action_coverage"] = {k: v["distinct"] for k, v in cov.items() if k in ("ZeroRhs", "Precondition", "ArnoldiStep", "LuckyBreakdown", "FullCycle", "SolveSmall", "Test")}
     tols = [1e-2, 1e-6, 1e-10, 1e-12] if thorough else [1e-2, 1e-6, 1e-12]
     scales = [2.0 ** -20, 2.0 ** 20] if not thorough else [2.0 ** -20, 2.0 ** 20, 1e-6, 1e6]
     sysl = systems(nmax, ctx.seed, thorough)
